@@ -849,6 +849,18 @@ func formatCorners(c *Ctx) {
 			}
 		}
 	}
+	// (2d) the central-directory form of Info-ZIP 2.x's unix2 block: tag 0x7855, no data (the ids are in the local header
+	// only). Such an archive encodes an ordinary fileset: it scans, to the id of the same entry without any owner block
+	{
+		none, cen := filepath.Join(base, "ux-none.zip"), filepath.Join(base, "ux-central.zip")
+		mkzip(none, nil)
+		mkzip(cen, []byte{0x55, 0x78, 0, 0})
+		a, b := scan("zip", none), scan("zip", cen)
+		c.H("corner:zip-unix2-central:" + strings.Fields(b)[0])
+		if strings.HasPrefix(a, "ok ") && a != b {
+			c.PropFail("valid-archive-refused", fmt.Sprintf("a zip whose entry carries the central-directory form of the unix2 block (no data, as Info-ZIP 2.x writes it) scans to %s; without any owner block the same entry scans to %s", b, a), op)
+		}
+	}
 	// (3)
 	for _, when := range []int64{-152668433, 4423000000, -1, 4294967296, 4294967295, 0} {
 		src := filepath.Join(base, fmt.Sprintf("zt%d", when))
